@@ -536,6 +536,37 @@ func init() {
 		}
 		return in.ts.Bool(false)
 	})
+	reg("errors.Is", func(in *Interp, fr *frame, a []Value) Value {
+		err := a[0].(Iface)
+		target := a[1].(Iface)
+		if err.t == nil || target.t == nil {
+			return in.ts.Bool(err.t == nil && target.t == nil)
+		}
+		for depth := 0; err.t != nil && depth < 16; depth++ {
+			if types.Comparable(target.t) && types.Identical(err.t, target.t) {
+				if in.decide(in.equals(err.t, err.v, target.v)) {
+					return in.ts.Bool(true)
+				}
+			}
+			if m := in.findMethod(err.t, nil, "Is"); m != nil && m.Signature.Params().Len() == 1 && m.Signature.Results().Len() == 1 {
+				r := in.callSSA(fr, 0, m, []Value{err.v, target}, nil)
+				if t, ok := r.(*Term); ok && in.decide(t) {
+					return in.ts.Bool(true)
+				}
+			}
+			m := in.findMethod(err.t, nil, "Unwrap")
+			if m == nil || m.Signature.Results().Len() != 1 {
+				break
+			}
+			r := in.callSSA(fr, 0, m, []Value{err.v}, nil)
+			next, ok := r.(Iface)
+			if !ok {
+				break // Unwrap() []error: not needed by the modelled code
+			}
+			err = next
+		}
+		return in.ts.Bool(false)
+	})
 	reg("internal/reflectlite.TypeOf", func(in *Interp, fr *frame, a []Value) Value {
 		unsupported("reflectlite.TypeOf")
 		return nil
